@@ -603,6 +603,57 @@ def cmd_replay(args):
         sys.exit(0)
 
 
+def cmd_coverage(args):
+    """Which functions of the property's anchor files (and of every instrumented package) the harness actually
+    enters (reach measurement, DESIGN.md section 3.7). The instrumenter puts a counting probe at every function
+    entry (the fnentry rule); a few workers run for a short budget; functions never entered are listed per file."""
+    pid = args.id
+    spec = dict(CHECKS[pid])
+    props = {}
+    for l in open(os.path.join(VERIF, "properties.jsonl")):
+        pj = json.loads(l)
+        props[pj["id"]] = pj
+    anchors = props[pid]["anchors"]["files"]
+    had_fnentry = "fnentry" in spec.get("rules", "sched")
+    if not had_fnentry:
+        spec["rules"] = spec.get("rules", "sched") + ",fnentry"
+    extra = sorted({os.path.dirname(a) for a in anchors} - set(spec["packages"]))
+    spec["packages"] = list(spec["packages"]) + [e for e in extra if os.path.isdir(os.path.join(REPO, e))]
+    with Scratch() as scratch:
+        overlay, report = instrument(spec, scratch)
+        binp = build_harness(spec, scratch, overlay, replaces=report.get("_replaces"))
+        procs = spawn_workers(binp, spec, scratch, args.seed, args.budget, args.workers,
+                              extra_env={"VERIF_FNCOV": "1" if had_fnentry else "only"})
+        hits = {}
+        for w in range(args.workers):
+            fp = os.path.join(scratch, "w%d.json.fncov" % w)
+            if os.path.exists(fp):
+                for k, v in json.load(open(fp)).items():
+                    hits[k] = hits.get(k, 0) + v
+            op = os.path.join(scratch, "w%d.json" % w)
+            if os.path.exists(op):
+                sj = json.load(open(op))
+                if sj.get("failures"):
+                    print("worker %d: failure class=%s %s" % (w, sj["failures"][0].get("class"), str(sj["failures"][0].get("detail"))[:200]))
+        per = {}
+        for h, where in (report.get("fn_sites") or {}).items():
+            f, fn = where.rsplit(":", 1)
+            t = per.setdefault(f, {"functions": 0, "entered": 0, "never_entered": []})
+            t["functions"] += 1
+            if hits.get(h):
+                t["entered"] += 1
+            else:
+                t["never_entered"].append(fn)
+        for f in sorted(per):
+            t = per[f]
+            t["never_entered"].sort()
+            mark = "*" if f in anchors else " "
+            print("%s %-52s %3d/%-3d functions entered; never: %s" % (mark, f, t["entered"], t["functions"], ", ".join(t["never_entered"]) or "-"))
+        os.makedirs(os.path.join(VERIF, "coverage"), exist_ok=True)
+        json.dump({"note": "function-entry reach of one short run (budget %ss x %d workers, seed %s); * = anchor file of the property" % (args.budget, args.workers, args.seed),
+                   "anchors": anchors, "files": per}, open(os.path.join(VERIF, "coverage", pid + ".json"), "w"), indent=1, sort_keys=True)
+
+
 def cmd_selftest(args):
     import selftest
     selftest.main(args, sys.modules[__name__])
@@ -620,12 +671,17 @@ def main():
     c.add_argument("--workers", type=int)
     r = sub.add_parser("replay")
     r.add_argument("file")
+    cv = sub.add_parser("coverage")
+    cv.add_argument("id")
+    cv.add_argument("--budget", type=float, default=20)
+    cv.add_argument("--workers", type=int, default=4)
+    cv.add_argument("--seed", type=int, default=1)
     s = sub.add_parser("selftest")
     s.add_argument("what", nargs="?", default="all")
     s.add_argument("ids", nargs="*")
     s.add_argument("--seeds", type=int, default=200)
     args = ap.parse_args()
-    {"setup": cmd_setup, "check": cmd_check, "replay": cmd_replay, "selftest": cmd_selftest}[args.cmd](args)
+    {"setup": cmd_setup, "check": cmd_check, "replay": cmd_replay, "selftest": cmd_selftest, "coverage": cmd_coverage}[args.cmd](args)
 
 
 if __name__ == "__main__":
